@@ -166,6 +166,33 @@ def run_op(nodes, src, n, kind, op, arg, case):
                 a = t.args
                 order = sorted(range(k), key=lambda i: str(cur[i]))
                 a.sort(key=str)
+            elif op == 'args-sort-by-kind-descending':
+                # a key with ties and reverse=True: list.sort keeps tied elements in their original order
+                a = t.args
+                order = sorted(range(k), key=lambda i: str(cur[i])[:1], reverse=True)
+                a.sort(key=lambda g: str(g)[:1], reverse=True)
+            elif op == 'args-sort-by-length-descending':
+                a = t.args
+                order = sorted(range(k), key=lambda i: len(str(cur[i])), reverse=True)
+                a.sort(key=lambda g: len(str(g)), reverse=True)
+            elif op == 'args-swap-then-copy-construct':
+                order = list(range(k))
+                if k >= 2:
+                    order[0], order[-1] = order[-1], order[0]
+                    a = t.args
+                    a[0], a[-1] = a[-1], a[0]
+                t.args = TexArgs(t.args)
+            elif op == 'args-delete-then-copy-construct':
+                order = list(range(1, k))
+                a = t.args
+                if k:
+                    del a[0]
+                t.args = TexArgs(t.args)
+            elif op == 'args-iadd-self-slice':
+                order = list(range(k)) + list(range(k))[:1]
+                a = t.args
+                a += list(a)[:1]
+                t.args = TexArgs(t.args)
             else:
                 raise H.HarnessError(op)
             saved = n.args
@@ -242,7 +269,9 @@ def check_doc(nodes, src, case, res):
                     ('args-reverse-reassign-own-list', None), ('args-reassign-identity', None), ('args-step', None),
                     ('args-swap-ends-inplace', None), ('args-slice-assign-inplace', None), ('args-sort-inplace', None),
                     ('args-fullslice-then-restore', None), ('args-edit-unassigned-slice', None),
-                    ('args-from-reversed-iterator', None), ('args-from-generator', None)]
+                    ('args-from-reversed-iterator', None), ('args-from-generator', None),
+                    ('args-sort-by-kind-descending', None), ('args-sort-by-length-descending', None),
+                    ('args-swap-then-copy-construct', None), ('args-delete-then-copy-construct', None)]
             if na >= 3:
                 pool.append(('args-permute', tuple([1, 2, 0] + list(range(3, na)))))
             ops.append(pool[k % len(pool)])
